@@ -219,3 +219,13 @@ claim("C15",
       "rows are letter runs without edge spaces; a 32-character row containing a mid-row code "
       "may legitimately go either way (the code occupies a cell)",
       "DESIGN.md 3/C15")
+claim("C16",
+      "Hypothesis roll-up / paint-on streams built from an abstract row model with computed "
+      "byte codes; conservation oracle (transmitted characters == returned characters, rows "
+      "contiguous) and timeline invariants over the returned captions",
+      "Generated-input search: 8k (thorough 250k) streams: RU2/3/4 once or per line, CR, PAC on "
+      "row 15 or other / varying rows and indents, 1-8 rows of 1-32 columns (biased to 30-32) "
+      "with special characters, single / doubled codes, both timecode kinds, first line at "
+      "timecode zero or later, closed or unterminated; paint-on bursts of 1-3 rows.",
+      "captions sharing a start time are treated as one display state; simulate_roll_up default",
+      "DESIGN.md 3/C16")
